@@ -42,6 +42,8 @@ def plan(tier, seed):
     for kind, arch in archs(tier):
         for q in range(3 if tier == "quick" else 5):
             items.append(dict(kind=kind, arch=arch, q=q, dev=1 if arch[0] <= (2 if tier == "quick" else 3) else 0))
+    for kind, arch in (("positive", [2, 3]), ("complex", [2, 2]), ("mixed", [2, 2, 2]), ("mixed", [2, 1, 1])):
+        items.append(dict(kind=kind, arch=arch, scope="stateful"))
     return items
 
 
@@ -73,10 +75,10 @@ def swap_ref_table(kind, amp, A, n):
     return tab
 
 
-def check_case(acc, kind, arch, params):
+def check_case(acc, kind, arch, params, st=None):
     L = lib()
     SWAP = L.observables.SWAP
-    st = build_state(kind, arch, params)
+    st = build_state(kind, arch, params) if st is None else st
     n = arch[0]
     D = 2 ** n
     space = tbits(n)
@@ -171,9 +173,33 @@ def check_case(acc, kind, arch, params):
         acc.viol(f"swap:raised:{e.kind}", base, observed=e.tb)
 
 
+def run_stateful(acc, kind, arch):
+    """non-initial states: one LIVE model evaluated, updated (in place / reinitialised), evaluated again"""
+    from ..common import update_params, UPDATE_STYLES
+    from .c05 import stateful_sequence
+    seq = stateful_sequence(kind, arch)
+    st = build_state(kind, arch, seq[0])
+    check_case(acc, kind, arch, seq[0], st=st)
+    for i, style in enumerate(UPDATE_STYLES):
+        update_params(st, seq[i + 1], style)
+        n0 = acc.n_violations
+        check_case(acc, kind, arch, seq[i + 1], st=st)
+        if acc.n_violations > n0:
+            for v in acc.violations:
+                v["case"]["history"] = [dict(update=x) for x in UPDATE_STYLES[: i + 1]]
+            return
+
+
 def run_item(item):
     acc = Acc()
     kind, arch = item["kind"], item["arch"]
+    if item.get("scope") == "stateful":
+        run_stateful(acc, kind, arch)
+        acc.sample(dict(kind=kind, arch=arch, scope="stateful"), cap=1)
+        acc.states = acc.evaluations
+        acc.transitions = acc.evaluations * 4 ** arch[0]
+        acc.traces = acc.counters.get("applies", 0)
+        return acc
     first = True
     for tag, params in param_assignments(kind, arch, npat=1, dev=item["dev"], ext=[-7.0, 0.0, 7.0], q0=item["q"]):
         check_case(acc, kind, arch, params)
@@ -188,5 +214,8 @@ def run_item(item):
 
 def replay(case):
     acc = Acc()
+    if case.get("history"):
+        run_stateful(acc, case["kind"], case["arch"])
+        return acc
     check_case(acc, case["kind"], case["arch"], case["params"])
     return acc
